@@ -22,7 +22,9 @@ for j in $(seq 0 $((jobs-1))); do
       if ! git -C "$wt" apply "$d/patch.diff" 2>/dev/null; then echo "$name NOAPPLY"; continue; fi
       flagged=""; rules=""
       own=$(sed -n 's/.*"breaks_property": "\(C[0-9]*\)".*/\1/p' "$d/meta.json" 2>/dev/null | head -1)
-      for n in $(seq -w 1 20); do
+      props=$(seq -w 1 20)
+      [ "${OWN_ONLY:-0}" = 1 ] && [ -n "$own" ] && props=${own#C}   # only the check of the property the seed was written against
+      for n in $props; do
         NUMPOLY_REPO="$wt" VERIF_EVIDENCE_DIR="$scratch/ev$j" "$vdir/check" C$n >"$scratch/out$j" 2>&1; rc=$?
         [ $rc = 1 ] && flagged="$flagged C$n"; [ $rc = 2 ] && flagged="$flagged C$n(ERR)"
         [ "C$n" = "$own" ] && rules=$(grep -o "\[R-[A-Z0-9-]*\]" "$scratch/out$j" | sort -u | tr -d '[]' | tr '\n' ',' | sed 's/,$//')
